@@ -47,6 +47,23 @@ def scene(rng, kind):
 
     system = System()
     desc = {"kind": kind}
+    if kind == "tip":
+        # a bar standing on one tip (contact point with a body-fixed offset) that falls over while the tip stays on the plane:
+        # a persistent contact whose force direction W_N changes with the orientation in every step
+        from cardillo.math import Exp_SO3, Spurrier
+        e_N, mu = 0.0, rng.choice([0.0, 0.3])
+        tilt = rng.uniform(0.2, 0.5)
+        A = Exp_SO3(tilt * np.array([np.cos(0.7), np.sin(0.7), 0.0]))
+        b = np.array([0.0, 0.0, -0.5])
+        pos = np.array([0.0, 0.0, -(A @ b)[2]])
+        body = RigidBody(1.0, np.diag([0.09, 0.09, 0.01]), q0=np.concatenate([pos, Spurrier(A)]), u0=np.zeros(6), name="bar")
+        c = Sphere2Plane(system.origin, body, mu=mu, r=0.0, B_r_CP=b, e_N=e_N, e_F=0.0, name="tipcontact")
+        system.add(body, c, Force(np.array([0, 0, -9.81]), body, name="g"))
+        with warnings.catch_warnings(), _quiet():
+            warnings.simplefilter("ignore")
+            system.assemble(options=_opts())
+        desc.update(e_N=e_N, mu=mu, mus=[mu], bodies=["RigidBody"])
+        return system, desc, False
     bodies = []
     gravity = kind != "free_collision"
     nb = {"ball_plane": 1, "balls_plane": rng.choice([2, 3]), "free_collision": 2, "alternate": 2, "mixed_mu": 3}[kind]
@@ -255,14 +272,14 @@ def run(ctx):
     if r.violated:
         ctx.violation("spec:lemma", "TLC: the prox fixed point is not equivalent to the complementarity statement", {"stdout": r.stdout[-2000:]})
     # part 2: scenes
-    nscenes = 12 if not ctx.thorough else 84
+    nscenes = 14 if not ctx.thorough else 84
     dts = [1e-3, 3e-3, 1e-2, 3e-2]
     allrecs = []
     meta = {}
     nruns = nfail = 0
     samples = []
     for si in range(nscenes):
-        kind = ["ball_plane", "balls_plane", "free_collision", "alternate", "balls_plane", "mixed_mu"][si % 6]
+        kind = ["ball_plane", "balls_plane", "free_collision", "alternate", "balls_plane", "mixed_mu", "tip"][si % 7]
         state = rng.getstate()
         dt = dts[si % len(dts)]
         nsteps = 50 if kind != "free_collision" else int(min(200, max(30, 0.5 / dt)))
